@@ -141,6 +141,9 @@ class Interp:
         self.max_steps = 400000
         self.write_log = None
         self.formula_mode = False
+        self.summary_log = []
+        self.post_hooks = {}
+        self.env = {}
         from . import models
 
         models.install(self)
@@ -292,7 +295,10 @@ class Interp:
             return mm.fn(self, list(args), dict(kwargs))
         summ = self.summaries.get(key)
         if summ is not None and key != self.verifying_key():
-            return summ(self, func, list(args), dict(kwargs))
+            r = summ(self, func, list(args), dict(kwargs))
+            if not (type(r) is object):  # NO_SUMMARY sentinel -> execute the body in place
+                self.summary_log.append(key)
+                return r
         if isinstance(func, IFunc):
             fnode = func.node
             globs = func.globals
@@ -328,11 +334,15 @@ class Interp:
         try:
             if isinstance(fnode, ast.Lambda):
                 return self.eval(fnode.body, frame)
+            rv = None
             try:
                 self.exec_block(fnode.body, frame)
             except ReturnEx as r:
-                return r.value
-            return None
+                rv = r.value
+            ph = self.post_hooks.get(key)
+            if ph is not None:
+                ph(self, list(args), rv)
+            return rv
         finally:
             self.stack.pop()
 
@@ -710,7 +720,12 @@ class Interp:
                         continue
                     parts.append(ops.opaque_str(self, "repr"))
                     continue
-                parts.append(val if isinstance(val, str) else ops.LazyStr(self, [val], v))
+                if isinstance(val, str):
+                    parts.append(val)
+                elif ops.all_concrete([val]):
+                    parts.append(str(val))
+                else:
+                    parts.append(ops.LazyStr(self, [val], v))
         if all(isinstance(p, str) for p in parts):
             return "".join(parts)
         return ops.LazyStr(self, parts, node)
@@ -724,8 +739,11 @@ class Interp:
         return ops.binop(self, type(node.op).__name__, l, r, node)
 
     def expr_UnaryOp(self, node, frame):
+        sk0 = getattr(self.ctx, "skolem_count", 0)
         v = self.eval(node.operand, frame)
         if isinstance(node.op, ast.Not):
+            if self.formula_mode and getattr(self.ctx, "skolem_count", 0) != sk0:
+                raise Unsupported("negation of a quantified formula")
             t = ops.truth(self, v)
             if isinstance(t, bool):
                 return not t
